@@ -52,6 +52,8 @@ def run_tlc(spec_files, module, cfg, *, workers=8, timeout_s=600, simulate=None,
         if coverage: cmd += ["-coverage", "1"]
         cmd += [module + ".tla"]
         env = dict(os.environ)
+        # deep recursive operators (eytzinger layout, offset sums) need a larger Java thread stack
+        env["JAVA_TOOL_OPTIONS"] = (env.get("JAVA_TOOL_OPTIONS", "") + " -Xss512m").strip()
         if dfs:
             env["JAVA_TOOL_OPTIONS"] = (env.get("JAVA_TOOL_OPTIONS", "") + " -Dtlc2.tool.queue.IStateQueue=StateDeque").strip()
         t0 = time.time()
